@@ -347,3 +347,21 @@ func setTypeForIntegers(node ast.Node, t reflect.Type) {
 		}
 	}
 }
+
+// hasDynamicOperand reports whether an arithmetic expression (as recognised by
+// isIntegerOrArithmeticOperation) has an operand of interface type.
+func hasDynamicOperand(node ast.Node) bool {
+	switch n := node.(type) {
+	case *ast.UnaryNode:
+		switch n.Operator {
+		case "+", "-":
+			return hasDynamicOperand(n.Node)
+		}
+	case *ast.BinaryNode:
+		switch n.Operator {
+		case "+", "/", "-", "*":
+			return hasDynamicOperand(n.Left) || hasDynamicOperand(n.Right)
+		}
+	}
+	return isInterface(node.Type())
+}
